@@ -251,6 +251,11 @@ def check_numeric_table(ctx, rule, classes: dict, attrs: dict):
         ctx.ob(rule, cname, ok, f"{cname}: format code {oct(code)} = E5 {spec['octal']}" if ok else f"{cname}: format code {oct(code) if isinstance(code, int) else code} but E5 assigns 0o{spec['octal']} to {mnem}", key="code", where=cls.where)
         if "kind" not in spec:
             continue
+        # a numeric class is a row of the table: the codec is the family's (BaseNumber / ItemNumber), not re-implemented per width
+        inherited = {m for base in cls.mro[1:] for m in base.methods}
+        overrides = sorted(m for m in cls.methods if m in inherited and m not in ("__init__",) and "@" not in m)
+        ctx.ob(rule, cname, not overrides, f"{cname}: uses the family's codec unchanged" if not overrides else
+               f"{cname} overrides {overrides} of its family: this width no longer encodes/decodes like the table row says (e.g. values post-processed after decoding)", key="no-override", where=cls.where)
         sc = repo.const(cls, attrs["struct"])
         nb = repo.const(cls, attrs["bytes"])
         try:
